@@ -230,15 +230,17 @@ class CircuitCompositeOperation(ICircuitCompositeOperation):
         # Guard clause, if graph does not contain non-Head nodes, return zero total duration
         if self.empty_composite:
             return total_duration
-        # Calculate relative start time of internal operations
+        # Calculate relative start time of internal operations (earliest start over all nodes,
+        # an operation joined at the end of another can start before the first-added operations)
         relative_start_time: float = +np.inf
-        for start_node in self._circuit_graph.get_nodes_at(depth=1):
+        for start_node in self._circuit_graph.get_node_iterator():
             start_time: float = start_node.operation.start_time
             if start_time < relative_start_time:
                 relative_start_time = start_time
-        # Calculate internal duration of operation branch
-        for leaf_node in self._circuit_graph.leaf_nodes:
-            delta_time = leaf_node.operation.end_time - relative_start_time
+        # Calculate internal duration of operation branch (latest end over all nodes,
+        # the last-ending operation is not necessarily a relation leaf)
+        for end_node in self._circuit_graph.get_node_iterator():
+            delta_time = end_node.operation.end_time - relative_start_time
             if delta_time > total_duration:
                 total_duration = delta_time
         return total_duration
